@@ -4,6 +4,10 @@
 //!               Two of the configurations run under a NON-EMPTY global codebook, so that auto-merge asks the
 //!               transition validator: codebook {e0} (every merge of the orthogonal e0/e1 workspaces is
 //!               rejected, the candidate ends Failed and must leave no trace) and {e0, e1, e0+e1} (accepted).
+//!               Restart pass: every distinct durable shape reached by the BFS (and every distinct block-creating
+//!               step) is followed by a re-open of the chain on the same store — clean, or after a crash inside
+//!               the last commit / append_block / initialize at every prefix of its store-write sequence — and by
+//!               every bounded continuation of further commits, with the same battery after every step.
 //! Part X  (E4): tamper enumeration on a genesis+3-block chain with validator keys registered: every header
 //!               field / transaction-list mutation, removal, swap, forgery, every single-bit flip of the
 //!               stored bytes — verify() must fail.
@@ -21,9 +25,9 @@ use std::collections::{BTreeMap, BTreeSet, HashSet};
 use std::sync::{Arc, Mutex};
 use tensor_chain::network::MemoryTransport;
 use tensor_chain::signing::{Identity, ValidatorRegistry};
-use tensor_chain::transaction::{TransactionState, TransactionWorkspace};
+use tensor_chain::transaction::{apply_transaction_to_store, TransactionState, TransactionWorkspace};
 use tensor_chain::{compute_state_root, Block, Chain, ChainConfig, CodebookConfig, GlobalCodebook, RaftConfig, RaftNode, TensorChain, TensorStateMachine, Transaction, ValidationConfig, ValidatorSignature};
-use tensor_store::{ScalarValue, SparseVector, TensorStore, TensorValue};
+use tensor_store::{ScalarValue, SparseVector, TensorData, TensorStore, TensorValue};
 use vsched::{Body, ExploreCfg, RunResult, Verdict};
 
 const T0: i64 = 1_700_000_000;
@@ -161,7 +165,17 @@ enum Op {
     Rollback(u8),
     AppendSigned,
     AppendUnsigned,
+    /// restart: the process goes away (workspaces with it); a new TensorChain with the same identity is built on
+    /// the same store and initialize()d
+    Reopen,
+    /// crash inside the operation just before it (a commit / append_block that created a block, or the first
+    /// initialize) after the first k steps of its store-write sequence, then Reopen. With n = number of
+    /// user-key writes of the commit: k <= n: the first k writes applied, block not stored; k = n+1: + block
+    /// record stored; k = n+2: + chain-link graph records; (k = n+3 would be the height record = completed)
+    CrashReopen(u8),
 }
+/// every chain of the restart-capable configurations signs with this key, in every life
+const ID_SEED: [u8; 32] = [7u8; 32];
 const KEYS: [&str; 2] = ["a", "b"];
 
 #[derive(Clone, Copy, Debug, PartialEq, Eq, Hash, Serialize, Deserialize)]
@@ -242,6 +256,51 @@ struct Seq {
     nops: u8,
     /// what the last commit did to the *other* slot: (merged into the block, picked as candidate and failed)
     last_merge: (u8, u8),
+    /// the store writes of the operation just executed, if it created a block (or was the first initialize)
+    last_write: Option<LastWrite>,
+    /// number of Reopen / CrashReopen steps so far
+    restarts: u8,
+    /// what the last restart step saw
+    last_restart: RestartObs,
+}
+/// Store image before and after one block-creating operation. The order of its writes is read off the code
+/// (lib.rs commit: apply_operations_to_store, in operation order -> chain.rs append: store_block ->
+/// add_chain_edge [graph records] -> save_height); the images tell which records those writes produced.
+struct LastWrite {
+    before: BTreeMap<String, TensorData>,
+    after: BTreeMap<String, TensorData>,
+    /// user-key writes in the order commit applies them (none for append_block / initialize)
+    txs: Vec<Transaction>,
+    ref_store_before: RefStore,
+    /// height of the block record written
+    new_height: u64,
+}
+#[derive(Clone, Copy, Default, Debug)]
+struct RestartObs {
+    /// 0 clean, 1 crash before the block record, 2 crash after the block record and before the height record,
+    /// 3 crash in the first initialize after the genesis record
+    kind: u8,
+    /// the height record was behind the stored blocks and initialize adopted the stored block
+    walked_forward: bool,
+    /// the interrupted operation counts as committed / as not committed after the re-open
+    committed: bool,
+    not_committed: bool,
+    /// the crash image held user-key writes of the interrupted commit without its block, and they were kept
+    uncommitted_writes_kept: bool,
+}
+/// Would a re-open have to undo user-key writes of an interrupted commit whose block record never reached the
+/// store? The property statement speaks of commits that return, not of crashes, and commit keeps its undo image in
+/// memory only; such images are counted (part S, "restart") and not reported. `true` turns them into violations.
+const CRASH_UNDO_REQUIRED: bool = false;
+fn restart_kind(kind: u8) -> &'static str {
+    ["clean-reopen", "crash-before-block-stored", "crash-block-stored-height-not-saved", "crash-in-initialize-genesis-stored"][kind as usize]
+}
+fn dump(store: &TensorStore) -> BTreeMap<String, TensorData> {
+    store.scan("").into_iter().filter_map(|k| store.get(&k).ok().map(|d| (k, d))).collect()
+}
+/// (re-)open a chain on `store` with the fixed identity
+fn open_chain(store: &TensorStore, merge: bool) -> TensorChain {
+    TensorChain::with_identity(store.clone(), ChainConfig::new("p").with_auto_merge(merge), Identity::from_bytes(&ID_SEED).expect("identity"))
 }
 fn mk_chain(merge: bool, cb: u8) -> (TensorChain, TensorStore) {
     let store = TensorStore::new();
@@ -265,8 +324,35 @@ fn minus(a: &[Transaction], b: &[Transaction]) -> Vec<Transaction> {
 }
 impl Seq {
     fn fresh(cfg: Cfg) -> Seq {
-        let (chain, store) = mk_chain(cfg.merge, cfg.cb);
-        Seq { cfg, chain, store, slots: [None, None], gens: [0, 0], ref_store: RefStore::new(), ref_blocks: vec![], commit_only: true, nops: 0, last_merge: (0, 0) }
+        // restart-capable configurations (default codebook) sign with a fixed key, so that a later life can be
+        // given the same identity; with_codebook has no such constructor (those chains are never re-opened)
+        let (chain, store) = if cfg.cb == 0 {
+            let store = TensorStore::new();
+            let chain = open_chain(&store, cfg.merge);
+            chain.initialize().expect("initialize");
+            (chain, store)
+        } else {
+            mk_chain(cfg.merge, cfg.cb)
+        };
+        let last_write = Some(LastWrite { before: BTreeMap::new(), after: dump(&store), txs: vec![], ref_store_before: RefStore::new(), new_height: 0 });
+        Seq { cfg, chain, store, slots: [None, None], gens: [0, 0], ref_store: RefStore::new(), ref_blocks: vec![], commit_only: true, nops: 0, last_merge: (0, 0), last_write, restarts: 0, last_restart: RestartObs::default() }
+    }
+    /// durable part of the state, up to the payload bytes: what a restart can depend on
+    fn shape(&self) -> String {
+        let blocks: Vec<Vec<String>> = self
+            .ref_blocks
+            .iter()
+            .map(|b| {
+                b.iter()
+                    .map(|t| match t {
+                        Transaction::Put { key, .. } => format!("put {key}"),
+                        Transaction::Delete { key } => format!("del {key}"),
+                        _ => "?".to_string(),
+                    })
+                    .collect()
+            })
+            .collect();
+        format!("{blocks:?}|{:?}", self.ref_store.keys().collect::<Vec<_>>())
     }
     fn states(&self) -> Vec<Option<TransactionState>> {
         self.slots.iter().map(|s| s.as_ref().map(|s| s.ws.state())).collect()
@@ -274,6 +360,7 @@ impl Seq {
     /// Ok(false) = not applicable. Err = the step itself already contradicts the statement.
     fn step(&mut self, op: Op) -> Result<bool, Viol> {
         self.nops += 1;
+        let last_write = self.last_write.take();
         match op {
             Op::Begin(w) => {
                 let w = w as usize;
@@ -309,6 +396,7 @@ impl Seq {
                 let ws = s.ws.clone();
                 let before = self.states();
                 let h0 = self.chain.height();
+                let (img_before, ref_before) = (dump(&self.store), self.ref_store.clone());
                 let r = self.chain.commit(&ws);
                 let after = self.states();
                 let h1 = self.chain.height();
@@ -351,6 +439,7 @@ impl Seq {
                             for tx in &expected {
                                 apply_ref(&mut self.ref_store, tx);
                             }
+                            self.last_write = Some(LastWrite { before: img_before, after: dump(&self.store), txs: expected.clone(), ref_store_before: ref_before, new_height: h1 });
                             self.ref_blocks.push(expected);
                         } else {
                             return viol("commit-height-jump", format!("one commit moved height {h0} -> {h1}"));
@@ -369,14 +458,17 @@ impl Seq {
             }
             Op::AppendSigned | Op::AppendUnsigned => {
                 let n = self.ref_blocks.len() as u8;
-                if n >= 3 {
-                    return Ok(false);
+                if n >= 3 && self.restarts == 0 {
+                    return Ok(false); // bounds the BFS; the continuations after a restart are bounded by their length
                 }
                 let txs = vec![Transaction::Put { key: "x".into(), data: vec![9, n] }];
                 let bb = self.chain.new_block().add_transactions(txs.clone());
                 let block = if op == Op::AppendSigned { bb.sign_and_build(self.chain.identity()) } else { bb.build() };
+                let img_before = dump(&self.store);
                 match self.chain.append_block(block) {
                     Ok(_) => {
+                        // append_block records the block only: nothing is applied to the user keys
+                        self.last_write = Some(LastWrite { before: img_before, after: dump(&self.store), txs: vec![], ref_store_before: self.ref_store.clone(), new_height: self.chain.height() });
                         self.ref_blocks.push(txs);
                         self.commit_only = false;
                     }
@@ -386,6 +478,103 @@ impl Seq {
                         }
                     }
                 }
+            }
+            Op::Reopen | Op::CrashReopen(_) => {
+                if self.cfg.cb != 0 {
+                    return Ok(false);
+                }
+                let mut obs = RestartObs::default();
+                // (k, n, height of the interrupted block, reference store before the operation, user keys of the image)
+                let mut crash: Option<(usize, usize, u64, RefStore, RefStore)> = None;
+                if let Op::CrashReopen(k) = op {
+                    let Some(lw) = last_write else { return Ok(false) };
+                    let (k, n) = (k as usize, lw.txs.len());
+                    if k == 0 || k > n + 2 {
+                        return Ok(false);
+                    }
+                    let block_rec = block_key(lw.new_height);
+                    let changed: BTreeSet<String> = lw.before.keys().chain(lw.after.keys()).filter(|key| lw.before.get(*key) != lw.after.get(*key)).cloned().collect();
+                    let links: Vec<&String> = changed.iter().filter(|key| !is_user_key(key) && **key != block_rec && *key != "chain:meta").collect();
+                    assert!(changed.contains(&block_rec) && changed.contains("chain:meta"), "MACHINERY write model: the operation did not write {block_rec} and chain:meta (changed: {changed:?})");
+                    if k == n + 2 && links.is_empty() {
+                        return Ok(false); // no link records (initialize): same image as k = n+1
+                    }
+                    let store = self.store.clone();
+                    let set = |key: &str, to: Option<&TensorData>| match to {
+                        Some(d) => store.put(key, d.clone()).expect("image put"),
+                        None => {
+                            let _ = store.delete(key);
+                        }
+                    };
+                    // everything the operation wrote goes back to the pre-image; then the first k steps of its
+                    // write sequence are re-issued in the real order
+                    for key in &changed {
+                        set(key, lw.before.get(key));
+                    }
+                    for tx in lw.txs.iter().take(k.min(n)) {
+                        apply_transaction_to_store(&store, tx).expect("image write");
+                    }
+                    if k >= n && !selftest() {
+                        assert!(user_store(&store) == self.ref_store, "MACHINERY write model: pre-image + the commit's writes != post-image on the user keys");
+                    }
+                    if k > n {
+                        set(&block_rec, lw.after.get(&block_rec));
+                    }
+                    if k > n + 1 {
+                        for key in &links {
+                            set(key, lw.after.get(*key));
+                        }
+                    }
+                    obs.kind = if lw.new_height == 0 { 3 } else if k <= n { 1 } else { 2 };
+                    let mut img = lw.ref_store_before.clone();
+                    for tx in lw.txs.iter().take(k.min(n)) {
+                        apply_ref(&mut img, tx);
+                    }
+                    crash = Some((k, n, lw.new_height, lw.ref_store_before, img));
+                }
+                // the process is gone, its workspaces with it
+                self.last_restart = obs;
+                self.slots = [None, None];
+                let chain = open_chain(&self.store, self.cfg.merge);
+                if let Err(e) = chain.initialize() {
+                    return viol("initialize-fails", format!("initialize() of the re-opened chain fails: {e}"));
+                }
+                self.chain = chain;
+                self.restarts += 1;
+                if let Some((k, n, new_height, before, img)) = crash {
+                    let h = self.chain.height();
+                    if new_height == 0 {
+                        obs.committed = true; // a chain with its genesis block, whichever initialize wrote it
+                    } else if k > n {
+                        // the block record is in the image, and so are all the commit's writes (they precede it):
+                        // committed = block + writes, not committed = neither; check() decides which holds fully
+                        obs.walked_forward = h == new_height;
+                        if h + 1 == new_height || selftest() {
+                            self.ref_blocks.pop();
+                            self.ref_store = before;
+                            obs.not_committed = true;
+                        } else {
+                            obs.committed = true;
+                        }
+                    } else {
+                        // no block record in the image: the commit never happened for the chain. The image holds
+                        // the first k of its writes; the statement has no crash clause that would oblige a re-open
+                        // to undo them without any record of the commit: undone and untouched are both accepted
+                        self.ref_blocks.pop();
+                        obs.not_committed = true;
+                        let got = user_store(&self.store);
+                        if got != before && img != before {
+                            obs.uncommitted_writes_kept = got == img;
+                            if CRASH_UNDO_REQUIRED {
+                                return viol("uncommitted-writes-in-store", format!("the crash image held {k} of the {n} writes of a commit whose block was never stored; after the re-open the store holds {got:?}, before the commit it held {before:?}"));
+                            }
+                            self.ref_store = img;
+                        } else {
+                            self.ref_store = before;
+                        }
+                    }
+                }
+                self.last_restart = obs;
             }
         }
         Ok(true)
@@ -420,7 +609,7 @@ impl Seq {
     }
     fn canon(&self) -> String {
         let slots: Vec<String> = self.slots.iter().map(|s| s.as_ref().map_or("-".to_string(), |s| format!("{:?}/{:?}/{}", s.ws.state(), s.ops, s.begin_height))).collect();
-        format!("{:?}|{:?}|{:?}|{:?}|{}", self.cfg, self.ref_blocks, self.ref_store, slots, self.commit_only)
+        format!("{:?}|{:?}|{:?}|{:?}|{}|{}", self.cfg, self.ref_blocks, self.ref_store, slots, self.commit_only, self.restarts)
     }
 }
 
@@ -455,6 +644,7 @@ fn op_kind(op: &Op) -> &'static str {
         Op::Rollback(_) => "rollback",
         Op::AppendSigned => "append_block(signed)",
         Op::AppendUnsigned => "append_block(unsigned)",
+        Op::Reopen | Op::CrashReopen(_) => "reopen",
     }
 }
 
@@ -477,6 +667,193 @@ struct SeqOut {
     merges_rejected: u64,
     merges_rejected_with_writes: u64,
     tasks: Vec<serde_json::Value>,
+    #[serde(default)]
+    restart: RestartOut,
+    /// restart bases: (configuration, shape key, first history) / (configuration, step key, first history, number
+    /// of user-key writes of its last step)
+    #[serde(default)]
+    bases_clean: Vec<(Cfg, String, Vec<Op>)>,
+    #[serde(default)]
+    bases_crash: Vec<(Cfg, String, Vec<Op>, u8)>,
+}
+#[derive(Default, Serialize, Deserialize)]
+struct RestartOut {
+    /// hashes of the distinct states reached at or after a restart step
+    state_hashes: Vec<u64>,
+    /// (history, restart step) pairs by kind of restart (see restart_kind)
+    restarts_by_kind: BTreeMap<String, u64>,
+    /// continuation paths run / dropped because a step was not applicable
+    paths: u64,
+    paths_inapplicable: u64,
+    /// steps executed at or after the restart step, each followed by the full battery
+    steps: u64,
+    violating_paths: u64,
+    /// crash re-opens whose height record was behind the stored blocks and initialize adopted the stored block
+    walked_forward: u64,
+    interrupted_counts_as_committed: u64,
+    interrupted_counts_as_not_committed: u64,
+    /// crash images holding writes of a commit whose block was never stored, kept by the re-open (not a violation)
+    uncommitted_writes_kept: u64,
+    /// blocks created after a restart
+    blocks_after_restart: u64,
+    blocks_after_walk_forward: u64,
+    /// summed over the restart tasks (they run on idle workers, concurrently)
+    wall_s_sum: f64,
+}
+fn restart_macros(thorough: bool) -> Vec<Vec<Op>> {
+    let t0 = vec![Op::Begin(0), Op::Put(0, 0), Op::Commit(0)];
+    let a = vec![Op::AppendSigned];
+    if !thorough {
+        return vec![t0, a];
+    }
+    let t1 = vec![Op::Begin(1), Op::Del(1, 0), Op::Put(1, 1), Op::Commit(1)];
+    // a second clean restart; a further commit interrupted after its block record was stored (height record
+    // behind) resp. after its write was applied and before its block record
+    let (mut x2, mut x1) = (t0.clone(), t0.clone());
+    x2.push(Op::CrashReopen(2));
+    x1.push(Op::CrashReopen(1));
+    vec![t0, a, t1, vec![Op::Reopen], x2, x1]
+}
+fn restart_len(_thorough: bool) -> usize {
+    2
+}
+/// all sequences of exactly `len` macros, flattened. A crash image without the block record (kind 1) holds exactly
+/// the chain records of the state before the commit, whose clean re-open gets the full continuation set: such
+/// images get the continuations of length 1 only
+fn restart_paths(thorough: bool, kind: u8) -> Vec<Vec<Op>> {
+    let macros = restart_macros(thorough);
+    let mut paths: Vec<Vec<Op>> = vec![vec![]];
+    for _ in 0..(if kind == 1 { 1 } else { restart_len(thorough) }) {
+        paths = paths.iter().flat_map(|p| macros.iter().map(move |m| p.iter().chain(m.iter()).copied().collect())).collect();
+    }
+    paths
+}
+struct RestartJob {
+    steps: u64,
+    hashes: Vec<u64>,
+    paths: u64,
+    inapplicable: u64,
+    /// the restart step was applicable
+    ran: bool,
+    kind: u8,
+    obs: RestartObs,
+    blocks_after: u64,
+    /// (history, violation, kind of the last restart before it)
+    viols: Vec<(Vec<Op>, Viol, u8)>,
+}
+/// base history, one restart step, then every continuation path; the battery after every step
+fn restart_job(cfg: Cfg, base: &[Op], r: Op, kind: u8, paths: &[Vec<Op>]) -> RestartJob {
+    let mut job = RestartJob { steps: 0, hashes: vec![], paths: 0, inapplicable: 0, ran: false, kind, obs: RestartObs::default(), blocks_after: 0, viols: vec![] };
+    for (pi, path) in paths.iter().enumerate() {
+        let mut s = replay(cfg, base).ok().expect("restart base replays");
+        let mut hist = base.to_vec();
+        let mut applicable = true;
+        let mut failed = None;
+        for (i, op) in std::iter::once(&r).chain(path.iter()).enumerate() {
+            hist.push(*op);
+            let blocks = s.ref_blocks.len();
+            let res = s.step(*op);
+            if i == 0 && pi == 0 {
+                job.obs = s.last_restart;
+            }
+            match res {
+                Ok(false) => {
+                    applicable = false;
+                    break;
+                }
+                Ok(true) => {}
+                Err(v) => {
+                    job.steps += 1;
+                    failed = Some((i, v));
+                    break;
+                }
+            }
+            job.steps += 1;
+            if i > 0 && s.ref_blocks.len() > blocks {
+                job.blocks_after += 1;
+            }
+            if let Err(v) = s.check() {
+                failed = Some((i, v));
+                break;
+            }
+            job.hashes.push(hash_str(&s.canon()));
+        }
+        if !applicable && hist.len() == base.len() + 1 {
+            return job; // the restart step itself does not apply (no further image at this k)
+        }
+        job.ran = true;
+        job.paths += 1;
+        if !applicable {
+            job.inapplicable += 1;
+        }
+        if let Some((i, v)) = failed {
+            job.viols.push((hist, v, s.last_restart.kind));
+            if i == 0 {
+                break; // the restart step itself fails: every path starts with it
+            }
+        }
+    }
+    job
+}
+/// (configuration, history, restart step, kind of restart)
+type RJob = (Cfg, Vec<Op>, Op, u8);
+/// One history per (configuration, key) — the smallest in a fixed order, whichever task found it —, then one job
+/// per restart step: a clean re-open per durable shape, a crash + re-open per prefix of a block-creating step
+fn restart_jobs(mut clean: Vec<(Cfg, String, Vec<Op>)>, mut crash: Vec<(Cfg, String, Vec<Op>, u8)>) -> Vec<RJob> {
+    clean.sort_by_key(|x| (x.2.len(), format!("{:?}", x.2), format!("{:?}", x.0)));
+    crash.sort_by_key(|x| (x.2.len(), format!("{:?}", x.2), format!("{:?}", x.0)));
+    let mut seen: HashSet<String> = HashSet::new();
+    clean.retain(|x| seen.insert(format!("{:?}|{}", x.0, x.1)));
+    seen.clear();
+    crash.retain(|x| seen.insert(format!("{:?}|{}", x.0, x.1)));
+    let mut jobs: Vec<RJob> = clean.into_iter().map(|(c, _, h)| (c, h, Op::Reopen, 0)).collect();
+    for (c, _, h, n) in crash {
+        for k in 1..=n + 2 {
+            let kind = if h.is_empty() { 3 } else if k <= n { 1 } else { 2 };
+            jobs.push((c, h.clone(), Op::CrashReopen(k), kind));
+        }
+    }
+    // shortest histories first, so that the first artefact of a signature is a shortest one
+    jobs.sort_by_key(|(c, h, r, _)| (h.len(), format!("{h:?}{r:?}{c:?}")));
+    jobs
+}
+/// chunk = (j, m): every m-th job starting at the j-th
+fn restart_pass(thorough: bool, jobs: &[RJob], chunk: (usize, usize), out: &mut SeqOut) {
+    let t0 = env::real_now_s();
+    let mut local_viol: Vec<nvc::report::ViolationRec> = vec![];
+    let paths: Vec<Vec<Vec<Op>>> = (0..4u8).map(|k| restart_paths(thorough, k)).collect();
+    let mine: Vec<&RJob> = jobs.iter().enumerate().filter(|(i, _)| i % chunk.1 == chunk.0).map(|(_, j)| j).collect();
+    let results: Vec<(Cfg, RestartJob)> = mine.par_iter().map(|(cfg, h, r, kind)| (*cfg, restart_job(*cfg, h, *r, *kind, &paths[*kind as usize]))).collect();
+    let ro = &mut out.restart;
+    for (cfg, job) in results {
+        if !job.ran {
+            continue;
+        }
+        *ro.restarts_by_kind.entry(restart_kind(job.kind).to_string()).or_default() += 1;
+        ro.paths += job.paths;
+        ro.paths_inapplicable += job.inapplicable;
+        ro.steps += job.steps;
+        ro.state_hashes.extend(job.hashes);
+        ro.walked_forward += u64::from(job.obs.walked_forward);
+        ro.interrupted_counts_as_committed += u64::from(job.obs.committed);
+        ro.interrupted_counts_as_not_committed += u64::from(job.obs.not_committed);
+        ro.uncommitted_writes_kept += u64::from(job.obs.uncommitted_writes_kept);
+        ro.blocks_after_restart += job.blocks_after;
+        if job.obs.walked_forward {
+            ro.blocks_after_walk_forward += job.blocks_after;
+        }
+        for (hist, v, kind) in job.viols {
+            ro.violating_paths += 1;
+            let sig = format!("c16:restart:{}:{}:{}", restart_kind(kind), op_kind(hist.last().unwrap()), v.sig);
+            if local_viol.iter().filter(|x| x.signature == sig).count() < 3 {
+                local_viol.push(nvc::report::ViolationRec { signature: sig, message: format!("cfg {cfg:?}, after {hist:?}: {}", v.msg), replay: json!({"part":"S","cfg":cfg,"ops":hist}) });
+            }
+        }
+    }
+    ro.state_hashes.sort_unstable();
+    ro.state_hashes.dedup();
+    ro.wall_s_sum += env::real_now_s() - t0;
+    out.violations.extend(local_viol);
 }
 fn hash_str(s: &str) -> u64 {
     use std::hash::{Hash, Hasher};
@@ -488,7 +865,9 @@ fn first_ops() -> Vec<Op> {
     vec![Op::Begin(0), Op::Begin(1), Op::AppendSigned, Op::AppendUnsigned]
 }
 /// BFS below the one-operation history [first] (the parent counts the empty history itself)
-fn part_s(cfg: Cfg, depth: usize, first: Op, out: &mut SeqOut) {
+/// `inline_restart`: run the restart pass over this task's bases here (selftest); otherwise the bases are handed to
+/// the parent, which removes duplicates across tasks and runs the restart pass in a second round of workers
+fn part_s(cfg: Cfg, depth: usize, first: Op, thorough: bool, inline_restart: bool, out: &mut SeqOut) {
     let t0 = env::real_now_s();
     let (st0, tr0) = (out.state_hashes.len(), out.transitions);
     let alpha = alphabet();
@@ -497,8 +876,16 @@ fn part_s(cfg: Cfg, depth: usize, first: Op, out: &mut SeqOut) {
     let mut local_viol: Vec<nvc::report::ViolationRec> = vec![];
     let mut local_seq: HashSet<String> = HashSet::new();
     let mut local_deepest: Vec<Op> = vec![];
+    // restart pass: first (= shortest) history per durable shape / per block-creating step shape
+    let mut clean_bases: BTreeMap<String, Vec<Op>> = BTreeMap::new();
+    let mut crash_bases: BTreeMap<String, (Vec<Op>, u8)> = BTreeMap::new();
+    if cfg.cb == 0 && first == Op::Begin(0) {
+        // the empty history belongs to this task: a fresh chain, and the crash inside its first initialize
+        clean_bases.insert(String::new(), vec![]);
+        crash_bases.insert(String::new(), (vec![], 0));
+    }
     for level in 0..depth {
-        type Row = (Vec<Op>, Result<(String, Option<String>, bool, bool, (u8, u8, bool)), Viol>);
+        type Row = (Vec<Op>, Result<(String, Option<String>, bool, bool, (u8, u8, bool), String, Option<(String, u8)>), Viol>);
         let results: Vec<Row> = frontier
             .par_iter()
             .flat_map_iter(|hist| {
@@ -516,6 +903,7 @@ fn part_s(cfg: Cfg, depth: usize, first: Op, out: &mut SeqOut) {
                     }
                     let Ok(mut s) = replay(cfg, hist) else { continue };
                     let blocks_before = s.ref_blocks.len();
+                    let keys_before: Vec<String> = s.ref_store.keys().cloned().collect();
                     let mut h2 = hist.clone();
                     h2.push(*op);
                     match s.step(*op) {
@@ -542,7 +930,9 @@ fn part_s(cfg: Cfg, depth: usize, first: Op, out: &mut SeqOut) {
                     } else {
                         (0, 0, false)
                     };
-                    v.push((h2, Ok((s.canon(), seq_key, new_block, commit_failed, merge))));
+                    let shape = s.shape();
+                    let crash = s.last_write.as_ref().map(|lw| (format!("{shape}|{keys_before:?}|{}", op_kind(op)), lw.txs.len() as u8));
+                    v.push((h2, Ok((s.canon(), seq_key, new_block, commit_failed, merge, shape, crash))));
                 }
                 v
             })
@@ -571,7 +961,13 @@ fn part_s(cfg: Cfg, depth: usize, first: Op, out: &mut SeqOut) {
                         local_viol.push(nvc::report::ViolationRec { signature: sig.clone(), message: format!("cfg {cfg:?}, after {hist:?}: {}", v.msg), replay: json!({"part":"S","cfg":cfg,"ops":hist}) });
                     }
                 }
-                Ok((key, seq_key, new_block, commit_failed, (merged, rejected, other_wrote))) => {
+                Ok((key, seq_key, new_block, commit_failed, (merged, rejected, other_wrote), shape, crash)) => {
+                    if cfg.cb == 0 {
+                        clean_bases.entry(shape).or_insert_with(|| hist.clone());
+                        if let Some((k, n)) = crash {
+                            crash_bases.entry(k).or_insert_with(|| (hist.clone(), n));
+                        }
+                    }
                     if matches!(hist.last(), Some(Op::Commit(_))) {
                         if new_block {
                             out.commits_ok += 1;
@@ -603,11 +999,19 @@ fn part_s(cfg: Cfg, depth: usize, first: Op, out: &mut SeqOut) {
         }
         frontier = next;
     }
+    let bfs_wall = env::real_now_s() - t0;
+    if inline_restart {
+        let jobs = restart_jobs(clean_bases.into_iter().map(|(k, h)| (cfg, k, h)).collect(), crash_bases.into_iter().map(|(k, (h, n))| (cfg, k, h, n)).collect());
+        restart_pass(thorough, &jobs, (0, 1), out);
+    } else {
+        out.bases_clean.extend(clean_bases.into_iter().map(|(k, h)| (cfg, k, h)));
+        out.bases_crash.extend(crash_bases.into_iter().map(|(k, (h, n))| (cfg, k, h, n)));
+    }
     out.violations.extend(local_viol);
     if deeper(&local_deepest, &out.deepest) {
         out.deepest = local_deepest;
     }
-    out.tasks.push(json!({"cfg": cfg, "first_op": first, "depth": depth, "states": out.state_hashes.len() - st0, "transitions": out.transitions - tr0, "wall_s": env::real_now_s() - t0}));
+    out.tasks.push(json!({"cfg": cfg, "first_op": first, "depth": depth, "states": out.state_hashes.len() - st0, "transitions": out.transitions - tr0, "wall_s": env::real_now_s() - t0, "wall_s_bfs": bfs_wall}));
 }
 /// order-independent choice of the sample history
 fn deeper(a: &[Op], b: &[Op]) -> bool {
@@ -1382,6 +1786,14 @@ fn task_cost(t: &Task, thorough: bool) -> u32 {
 }
 /// Workers claim tasks (most expensive first) by creating `<dir>/<index>` exclusively, so the load balances
 /// itself; which worker ran a task has no influence on any reported number.
+/// second round: worker i of n runs every n-th job of the restart pass
+fn restart_worker(i: usize, n: usize, thorough: bool, jobs_file: &str) {
+    let _ = rayon::ThreadPoolBuilder::new().num_threads(2).build_global();
+    let jobs: Vec<RJob> = serde_json::from_str(&std::fs::read_to_string(jobs_file).expect("restart jobs")).expect("restart jobs json");
+    let mut out = SeqOut::default();
+    restart_pass(thorough, &jobs, (i, n), &mut out);
+    par::emit_result(&out);
+}
 fn worker(_i: usize, _n: usize, thorough: bool, claims: &str) {
     vsched::quiet_panics();
     vsched::set_thread_init(|t| env::set_thread_seed(t as u64 + 1));
@@ -1395,7 +1807,7 @@ fn worker(_i: usize, _n: usize, thorough: bool, claims: &str) {
             continue;
         }
         match task {
-            Task::S(_, cfg, first) => part_s(cfg, s_depth(&cfg, thorough), first, &mut st.seq),
+            Task::S(_, cfg, first) => part_s(cfg, s_depth(&cfg, thorough), first, thorough, false, &mut st.seq),
             Task::T(pi, part) => explore_program(&progs[pi], bound_for(&progs[pi], thorough), (part, parts(thorough)), &mut st),
         }
     }
@@ -1408,7 +1820,7 @@ fn run_selftest() -> ! {
     let count = |v: &[nvc::report::ViolationRec], pat: &str| v.iter().filter(|x| x.signature.contains(pat)).count();
     let run_s = || {
         let mut s = SeqOut::default();
-        part_s(Cfg { merge: false, dirs: 0, cb: 0 }, 3, Op::Begin(0), &mut s);
+        part_s(Cfg { merge: false, dirs: 0, cb: 0 }, 3, Op::Begin(0), false, true, &mut s);
         s
     };
     vsched::quiet_panics();
@@ -1419,7 +1831,7 @@ fn run_selftest() -> ! {
         st
     };
     let mut s2 = SeqOut::default();
-    part_s(Cfg { merge: false, dirs: 0, cb: 0 }, 4, Op::Begin(0), &mut s2);
+    part_s(Cfg { merge: false, dirs: 0, cb: 0 }, 4, Op::Begin(0), false, true, &mut s2);
     let seqs: Vec<BlockSeq> = s2.seqs.iter().take(4).map(|(c, h, _)| block_seq(*c, h)).collect();
     // the merge-candidate oracle: [begin 0, begin 1, put 0, put 1, commit 0] under the rejecting ({e0}) and the
     // accepting ({e0,e1,e0+e1}) codebook; (state of slot 1, verdict of step+check)
@@ -1429,16 +1841,34 @@ fn run_selftest() -> ! {
         let v = s.step(Op::Commit(0)).and_then(|_| s.check()).err().map(|v| v.sig);
         (s.states()[1], v, s.chain.get_block(1).ok().flatten().map_or(0, |b| b.transactions.len()))
     };
-    let (s0, x0, r0, t0, m0) = (run_s(), part_x(false), part_r(&seqs), run_t(), (run_m(1), run_m(2)));
+    // the restart oracle: [begin 0, put 0 a, commit 0], crash after the block record was stored (height record
+    // behind), re-open, one more commit; (initialize adopted the stored block, final height, verdict)
+    let run_c = || {
+        let mut s = replay(Cfg { merge: false, dirs: 0, cb: 0 }, &[Op::Begin(0), Op::Put(0, 0), Op::Commit(0)]).ok().expect("selftest history");
+        let mut verdict = None;
+        for op in [Op::CrashReopen(2), Op::Begin(0), Op::Put(0, 0), Op::Commit(0)] {
+            if let Err(v) = s.step(op).and_then(|_| s.check()) {
+                verdict = Some(v.sig);
+                break;
+            }
+        }
+        (s.last_restart.walked_forward, s.chain.height(), verdict)
+    };
+    let (s0, x0, r0, t0, m0, c0) = (run_s(), part_x(false), part_r(&seqs), run_t(), (run_m(1), run_m(2)), run_c());
     SELFTEST.store(true, std::sync::atomic::Ordering::Relaxed);
-    let (s1, x1, r1, t1, m1) = (run_s(), part_x(false), part_r(&seqs), run_t(), run_m(2));
+    let (s1, x1, r1, t1, m1, c1) = (run_s(), part_x(false), part_r(&seqs), run_t(), run_m(2), run_c());
     let twin = |r: &ReplicaOut| r.passing_by_scenario.get(&0).copied().unwrap_or(0);
     println!("selftest S (reference ignores puts to key b): commit:store-differs alarms {} -> {}", count(&s0.violations, "commit:store-differs"), count(&s1.violations, "commit:store-differs"));
     println!("selftest X (field mutations are not written, so verify() passes): undetected {} -> {} of {} field mutations", x0.undetected, x1.undetected, x1.field_mutations);
     println!("selftest R (replica B's root perturbed): identical-twin cases passing {} -> {} of {}", twin(&r0), twin(&r1), seqs.len());
     println!("selftest T (reference ignores puts to key b): violating schedules {} -> {} of {}", t0.violation_total, t1.violation_total, t1.executions);
     println!("selftest S/merge (baseline: codebook {{e0}} -> candidate {:?}, block of {} tx, verdict {:?}; codebook {{e0,e1,e0+e1}} -> candidate {:?}, block of {} tx, verdict {:?}); accepted candidate treated as rejected -> verdict {:?}", m0.0 .0, m0.0 .2, m0.0 .1, m0.1 .0, m0.1 .2, m0.1 .1, m1.1);
+    println!("selftest S/restart (baseline: crash after the block record, re-open adopted the block = {}, height after one more commit {}, verdict {:?}; restart pass of the baseline run: {} restart steps, {} violating paths); reference claims the recovered commit never happened -> verdict {:?}", c0.0, c0.1, c0.2, s0.restart.restarts_by_kind.values().sum::<u64>(), s0.restart.violating_paths, c1.2);
     let ok = count(&s0.violations, "commit:store-differs") == 0
+        && c0 == (true, 2, None)
+        && c1.2.as_deref() == Some("height-differs")
+        && s0.restart.violating_paths == 0
+        && s0.restart.walked_forward > 0
         && m0.0 == (Some(TransactionState::Failed), None, 1)
         && m0.1 == (Some(TransactionState::Committed), None, 2)
         && m1.1.as_deref() == Some("rejected-merge-candidate-left-writes")
@@ -1531,7 +1961,10 @@ fn main() {
     env::clock_freeze(T0);
     let args = nvc::Args::parse();
     if let Some((i, n)) = args.worker {
-        worker(i, n, args.thorough(), &args.flag("claims").expect("--claims"));
+        match args.flag("restart-jobs") {
+            Some(f) => restart_worker(i, n, args.thorough(), &f),
+            None => worker(i, n, args.thorough(), &args.flag("claims").expect("--claims")),
+        }
         return;
     }
     if args.rest.iter().any(|a| a == "--selftest") {
@@ -1546,9 +1979,10 @@ fn main() {
     let thorough = rep.thorough();
     let depth = if thorough { 6 } else { 5 };
     let bound = if thorough { "2 (2-thread programs) / 1 (3-thread programs)" } else { "1" };
-    rep.rule(&format!("S: for each of 8 configurations (auto-merge on/off x workspaces without / with identical / with orthogonal delta embeddings under the default empty global codebook, plus auto-merge on + orthogonal embeddings e0/e1 on a chain built with_codebook: {{e0}}, where the transition validator rejects every merge candidate [target e0+e1 resp. source e1 is no known state], and {{e0, e1, e0+e1}}, where it is asked and accepts) BFS over every sequence of <= {depth} (plain workspaces; merge + orthogonal under the empty and under the rejecting{} codebook) / {} (others) operations from {{begin(slot), put(slot,key), delete(slot,key), commit(slot), rollback(slot), append_block(signed|unsigned)}} over 2 workspace slots and 2 keys, replayed on a fresh real TensorChain, dedup on (blocks, store, workspace states/ops); after every step: verify() Ok, every height present/linked/rooted, tip_hash/get_block/history agree with the blocks added, new block == the writes of exactly the workspaces that became Committed (a workspace the commit picked as merge candidate and left Failed contributes nothing to block, store or history), store user keys == reference. X: genesis + 3 committed blocks, own and a second validator key registered; every header-field and transaction-list mutation of every stored block (tx_root kept and recomputed), co-signature injection, every removal, every swap, 4 forgeries per block, every single-bit flip of every stored block's bytes; verify() must fail unless the decoded block is equal. R: every distinct commit-built block sequence of S applied by two TensorStateMachines (proposer's node id and key), replica A at the proposer's clock T; replica B: (0) identical twin, (1) same genesis, applies one hour later, (2) created one hour later, (3) another node id at the same clock; same accept/reject, same compute_state_root after each block. T: per program 2{} real threads calling commit (one program: rollback) on prepared workspaces (one program on the {{e0}}-codebook chain whose validator rejects the merge candidate{}), every schedule with <= {bound} preemptions; quiescent chain verifies and is linked, each Committed workspace exactly once in one block, no other, store == blocks applied in order. non-trivial = distinct S states + schedules with >= 1 preemption + tamper cases + replica comparisons", if thorough { " and accepting" } else { "" }, depth - 1, if thorough { "-3" } else { "" }, if thorough { ", one on the accepting codebook" } else { "" }));
+    rep.rule(&format!("S: for each of 8 configurations (auto-merge on/off x workspaces without / with identical / with orthogonal delta embeddings under the default empty global codebook, plus auto-merge on + orthogonal embeddings e0/e1 on a chain built with_codebook: {{e0}}, where the transition validator rejects every merge candidate [target e0+e1 resp. source e1 is no known state], and {{e0, e1, e0+e1}}, where it is asked and accepts) BFS over every sequence of <= {depth} (plain workspaces; merge + orthogonal under the empty and under the rejecting{} codebook) / {} (others) operations from {{begin(slot), put(slot,key), delete(slot,key), commit(slot), rollback(slot), append_block(signed|unsigned)}} over 2 workspace slots and 2 keys, replayed on a fresh real TensorChain, dedup on (blocks, store, workspace states/ops); after every step: verify() Ok, every height present/linked/rooted, tip_hash/get_block/history agree with the blocks added, new block == the writes of exactly the workspaces that became Committed (a workspace the commit picked as merge candidate and left Failed contributes nothing to block, store or history), store user keys == reference. S/restart (default-codebook configurations): for the first (shortest) BFS history of every distinct durable shape (per block the sequence of (put|delete, key) [appended blocks are those writing x], set of user keys in the store; payload bytes and open workspaces abstracted, they do not survive a restart) a clean re-open, and for the first history of every distinct block-creating step (shape after x user keys before x commit|append_block, plus the first initialize) a crash + re-open at EVERY prefix k = 1..n+2 of its store-write sequence (n user-key writes, block record, chain-link records; see the crash model); after the restart step every sequence of exactly {rlen} continuation macros out of {rmac:?} ({rpaths} paths per restart step; after a crash image without the block record, whose chain records are those of the state before the commit, the sequences of length 1); after the restart step and after every later operation the same battery as in the BFS (verify(), every height present/linked/rooted, tip_hash == hash of block height(), nothing beyond the tip, block contents and history == the blocks that count as committed, store user keys == reference), so further commits must extend the recovered chain. X: genesis + 3 committed blocks, own and a second validator key registered; every header-field and transaction-list mutation of every stored block (tx_root kept and recomputed), co-signature injection, every removal, every swap, 4 forgeries per block, every single-bit flip of every stored block's bytes; verify() must fail unless the decoded block is equal. R: every distinct commit-built block sequence of S applied by two TensorStateMachines (proposer's node id and key), replica A at the proposer's clock T; replica B: (0) identical twin, (1) same genesis, applies one hour later, (2) created one hour later, (3) another node id at the same clock; same accept/reject, same compute_state_root after each block. T: per program 2{} real threads calling commit (one program: rollback) on prepared workspaces (one program on the {{e0}}-codebook chain whose validator rejects the merge candidate{}), every schedule with <= {bound} preemptions; quiescent chain verifies and is linked, each Committed workspace exactly once in one block, no other, store == blocks applied in order. non-trivial = distinct S states + schedules with >= 1 preemption + tamper cases + replica comparisons", if thorough { " and accepting" } else { "" }, depth - 1, if thorough { "-3" } else { "" }, if thorough { ", one on the accepting codebook" } else { "" }, rlen = restart_len(thorough), rmac = restart_macros(thorough), rpaths = restart_paths(thorough, 0).len()));
     rep.assume("interleavings at lock-acquisition granularity: TensorChain::commit/rollback, TransactionManager, TransactionWorkspace, Chain, GraphEngine, TensorStore, ValidatorRegistry, GlobalCodebook, TransitionValidator use parking_lot / dashmap locks only (no std::sync, tokio::sync or Condvar on these paths); Chain::height is an atomic read inside lock-delimited segments");
     rep.assume("the non-empty-codebook configurations build the chain with TensorChain::with_codebook(GlobalCodebook::from_centroids(..), CodebookConfig::default(), ValidationConfig::default()) (state_threshold 0.8, strict transitions, max magnitude 1.0) over 128-dimensional one-hot deltas, all begins inside the merge window (frozen clock); load_or_create over a persisted codebook reaches the same find_and_merge_orthogonal code and is not run separately");
+    rep.assume(&format!("restart model (S, restart pass; the 6 default-codebook configurations, whose chains are built with_identity(fixed key); with_codebook offers no constructor taking an identity, those 2 configurations are not re-opened): a restart = the TensorChain object and every open workspace are dropped, TensorChain::with_identity(same store, same config, same key) + initialize(). Crash model: the store that survives is the TensorStore content at one instant between two consecutive store writes of ONE interrupted public call (what a per-write durable store, or a save_snapshot/checkpoint taken by another thread at that instant, retains); nothing else is lost, reordered or torn. The write sequence is read off the code and trusted: commit (lib.rs) = apply_operations_to_store (one user-key write per operation, in block order) -> Chain::append (chain.rs) = store_block [chain:block:<h+1>] -> add_chain_edge [node:/edge:/_graph_idx: records, taken as ONE step: their internal order is not enumerated] -> save_height [chain:meta]; there is no separate tip record (tip_hash is recomputed from the block at the recovered height); append_block = the same without user-key writes; first initialize = store_block(genesis) -> save_height(0). Images are produced from the recorded pre-/post-images of the real call: every record the call changed is put back, then the first k steps are re-issued (user-key writes through tensor_chain::transaction::apply_transaction_to_store, later records copied from the post-image); k = 0 and k = all are the clean re-opens of the neighbouring states. Only prefixes are built: the height record is never ahead of the stored blocks (initialize's walk-back branch is not reachable by a crash in this model and is not examined). Oracle for the interrupted call: it counts as committed (block h+1 is its block, all its writes in the store) or as not committed (height h, no block h+1, none of its writes), decided by the height the re-opened chain reports and then demanded in full; exception: if the image holds writes of the commit but not its block record (crash during apply_operations_to_store or before store_block; commit keeps its undo image in memory only) the statement, which speaks of calls that return, is not read as obliging initialize to undo them: store == pre-image or store == crash image are both accepted (counted in part S restart as observation, CRASH_UNDO_REQUIRED = {CRASH_UNDO_REQUIRED})"));
     rep.assume("tampering = rewriting the `_block` bytes (or the whole entry) of `chain:block:<h>` in the store of a live TensorChain; the in-memory height/tip of that instance are trusted; reopening a truncated store is not examined");
 
 
@@ -1565,6 +1999,7 @@ fn main() {
     let st_wall = env::real_now_s() - t;
     let mut tt = WStats::default();
     let mut state_hashes: HashSet<u64> = HashSet::new();
+    let mut restart_hashes: HashSet<u64> = HashSet::new();
     let mut s = SeqOut::default();
     let mut seq_seen: HashSet<String> = HashSet::new();
     let mut all_viol: Vec<nvc::report::ViolationRec> = vec![];
@@ -1597,6 +2032,8 @@ fn main() {
         s.merges_validated += w.seq.merges_validated;
         s.merges_rejected += w.seq.merges_rejected;
         s.merges_rejected_with_writes += w.seq.merges_rejected_with_writes;
+        s.bases_clean.extend(w.seq.bases_clean);
+        s.bases_crash.extend(w.seq.bases_crash);
         s.tasks.extend(w.seq.tasks);
         if deeper(&w.seq.deepest, &s.deepest) {
             s.deepest = w.seq.deepest.clone();
@@ -1604,6 +2041,32 @@ fn main() {
         all_viol.extend(w.seq.violations);
         s.seqs.extend(w.seq.seqs);
     }
+    // S, restart pass: second round of workers over the bases of all tasks
+    let t = env::real_now_s();
+    let rjobs = restart_jobs(std::mem::take(&mut s.bases_clean), std::mem::take(&mut s.bases_crash));
+    let jobs_file = format!("{}/restart-jobs.json", env::scratch_root());
+    std::fs::write(&jobs_file, serde_json::to_string(&rjobs).unwrap()).expect("write restart jobs");
+    let rresults: Vec<SeqOut> = par::spawn_workers(par::worker_count().min(rjobs.len().max(1)), &[format!("--restart-jobs={jobs_file}")]);
+    for w in rresults {
+        let (ro, wr) = (&mut s.restart, w.restart);
+        restart_hashes.extend(wr.state_hashes);
+        for (k, v) in wr.restarts_by_kind {
+            *ro.restarts_by_kind.entry(k).or_default() += v;
+        }
+        ro.paths += wr.paths;
+        ro.paths_inapplicable += wr.paths_inapplicable;
+        ro.steps += wr.steps;
+        ro.violating_paths += wr.violating_paths;
+        ro.walked_forward += wr.walked_forward;
+        ro.interrupted_counts_as_committed += wr.interrupted_counts_as_committed;
+        ro.interrupted_counts_as_not_committed += wr.interrupted_counts_as_not_committed;
+        ro.uncommitted_writes_kept += wr.uncommitted_writes_kept;
+        ro.blocks_after_restart += wr.blocks_after_restart;
+        ro.blocks_after_walk_forward += wr.blocks_after_walk_forward;
+        ro.wall_s_sum += wr.wall_s_sum;
+        all_viol.extend(w.violations);
+    }
+    let restart_wall = env::real_now_s() - t;
     // shortest counterexample first, at most 3 artefacts per signature
     all_viol.sort_by_key(|v| (v.signature.clone(), v.message.len(), v.message.clone()));
     let mut per_sig: BTreeMap<String, usize> = BTreeMap::new();
@@ -1617,10 +2080,12 @@ fn main() {
     }
     s.tasks.sort_by_key(|t| t.to_string());
     let s_states = state_hashes.len() as u64 + configs().len() as u64; // + the empty history of each configuration
+    let restart_states = restart_hashes.len() as u64;
     // one representative history per distinct block sequence: the smallest in a fixed order
     s.seqs.sort_by_key(|x| (x.1.len(), format!("{:?}", x.1), format!("{:?}", x.0)));
     s.seqs.retain(|x| seq_seen.insert(x.2.clone()));
-    rep.part("S", json!({"depth": depth, "tasks": s.tasks, "distinct_states": s_states, "transitions": s.transitions, "violating_transitions": s.violating, "commits_creating_a_block": s.commits_ok, "commits_without_block": s.commits_err, "commits_merging_the_other_workspace(empty codebook)": s.merges_unvalidated, "commits_merging_the_other_workspace(validator accepted)": s.merges_validated, "commits_whose_merge_candidate_the_validator_rejected": s.merges_rejected, "..of which the rejected candidate had writes": s.merges_rejected_with_writes, "wall_s_together_with_T": st_wall}));
+    rep.part("S", json!({"depth": depth, "tasks": s.tasks, "distinct_states": s_states, "transitions": s.transitions, "violating_transitions": s.violating, "commits_creating_a_block": s.commits_ok, "commits_without_block": s.commits_err, "commits_merging_the_other_workspace(empty codebook)": s.merges_unvalidated, "commits_merging_the_other_workspace(validator accepted)": s.merges_validated, "commits_whose_merge_candidate_the_validator_rejected": s.merges_rejected, "..of which the rejected candidate had writes": s.merges_rejected_with_writes, "wall_s_together_with_T": st_wall,
+        "restart": {"continuation_macros": restart_macros(thorough), "continuation_length": restart_len(thorough), "continuation_paths_per_restart": restart_paths(thorough, 0).len(), "continuation_paths_per_crash_without_block_record": restart_paths(thorough, 1).len(), "(history, restart step) pairs by kind": s.restart.restarts_by_kind, "paths_run": s.restart.paths, "paths_dropped_as_inapplicable": s.restart.paths_inapplicable, "steps_executed_with_battery": s.restart.steps, "distinct_states_at_or_after_a_restart": restart_states, "violating_paths": s.restart.violating_paths, "wall_s": restart_wall, "wall_s_summed_over_workers": s.restart.wall_s_sum, "crash_reopens_that_adopted_a_stored_block_ahead_of_the_height_record": s.restart.walked_forward, "block_creating_steps_after_a_restart": s.restart.blocks_after_restart, "..of which after such an adoption": s.restart.blocks_after_walk_forward, "interrupted_operation_counts_as_committed": s.restart.interrupted_counts_as_committed, "interrupted_operation_counts_as_not_committed": s.restart.interrupted_counts_as_not_committed, "observation (not a violation): crash images holding user-key writes of a commit whose block was never stored, left in the store by the re-open": s.restart.uncommitted_writes_kept}}));
     rep.sample(json!({"part":"S","deepest_new_state_history": s.deepest}));
     let single: Vec<&String> = tt.outcomes.iter().filter(|(_, v)| v.len() < 2).map(|(k, _)| k).collect();
     // artefacts are capped (8 per schedule-tree partition, 3 per signature); the outcome sets are not
@@ -1658,11 +2123,19 @@ fn main() {
         rep.sample(json!({"part":"R","ops": bs.hist, "blocks": bs.blocks.iter().map(|b| format!("{:?}", b.transactions)).collect::<Vec<_>>()}));
     }
 
-    rep.add("states", s_states + tt.executions + x.cases + r.comparisons);
-    rep.add("transitions", s.transitions + tt.sched_points + x.cases + r.blocks_applied);
-    rep.add("traces_validated_against_impl", s.transitions + tt.executions + x.cases + r.sequences);
-    rep.add("evaluations", s.transitions + tt.executions + x.cases + r.comparisons);
-    rep.add("distinct_nontrivial", s_states + nontrivial_t + x.cases + r.comparisons);
+    rep.add("states", s_states + restart_states + tt.executions + x.cases + r.comparisons);
+    rep.add("transitions", s.transitions + s.restart.steps + tt.sched_points + x.cases + r.blocks_applied);
+    rep.add("traces_validated_against_impl", s.transitions + s.restart.steps + tt.executions + x.cases + r.sequences);
+    rep.add("evaluations", s.transitions + s.restart.steps + tt.executions + x.cases + r.comparisons);
+    rep.add("distinct_nontrivial", s_states + restart_states + nontrivial_t + x.cases + r.comparisons);
+    let by_kind = |k: u8| s.restart.restarts_by_kind.get(restart_kind(k)).copied().unwrap_or(0);
+    if by_kind(0) < 20 || by_kind(1) == 0 || by_kind(2) < 20 || by_kind(3) == 0 {
+        rep.machinery(format!("vacuous: restart kinds not all exercised: {:?}", s.restart.restarts_by_kind));
+    }
+    // (a path that ends in a violation was exercised: it must not turn a detection into "vacuous")
+    if s.restart.walked_forward == 0 || s.restart.blocks_after_walk_forward + s.restart.violating_paths == 0 || s.restart.blocks_after_restart + s.restart.violating_paths < 100 {
+        rep.machinery(format!("vacuous: restart recovery paths not exercised (re-opens adopting a stored block ahead of the height record {}, block-creating steps after those {}, after any restart {})", s.restart.walked_forward, s.restart.blocks_after_walk_forward, s.restart.blocks_after_restart));
+    }
     if s_states < 200 {
         rep.machinery("vacuous: too few sequential states");
     }
